@@ -22,9 +22,9 @@ func init() {
 		Assumptions: []string{"root", "add vs modify is not demanded", "the hard-link timing exception of C02 applies", "children of a directory replaced by a non-directory vanish with the parent's event"},
 		Cases: func(tier string) int {
 			if tier == "thorough" {
-				return 10000
+				return 30000
 			}
-			return 600
+			return 2000
 		},
 		Batch:         40,
 		MinNontrivial: func(tier string) int { return 150 },
